@@ -277,6 +277,60 @@ def runRestLine (r : Report) (sec : Nat) (l : Line) (gated : Bool) (eng : Option
         r := r.violation sec l.idx s!"exempt request (websocket/event-stream) was cut off by the timeout: op=[{joinSp l.op}] impl=[{impl}]"
     return r
 
+/-! ### two requests in flight together: `pair <same|own> <kindA> <ka> <kindB> <kb> <la> <actA>* / <actB>*`
+
+The model has no state shared between requests (`mstep`: a step of one request leaves the others alone; Props
+`multi_request_independent`), so each half of the line must be explained by the single-request model on its own schedule,
+and the property (`Spec.check`) must hold for each half on its own — whatever the other request did in between. -/
+
+def splitAt (sep : String) (l : List String) : List String × List String :=
+  (l.takeWhile (· ≠ sep), (l.dropWhile (· ≠ sep)).drop 1)
+
+def runPairHalf (r : Report) (sec : Nat) (l : Line) (who other : String) (pfx : String) (script : List Act) (kind : Option Kind) (k : Nat)
+    (lateDuringOther : Bool) : Report := Id.run do
+  let mut r := r
+  let o (key : String) : String := obsOf l (pfx ++ key)
+  let impl := s!"sret={o "sret"} atret={o "atret"} results={o "results"} final={o "final"}"
+  let cands : List RestOut := [simWrapped script kind k false] ++ (if Spec.hasFlush script then [simWrapped script kind k true] else [])
+  match cands.find? (fun c => c.render false = impl) with
+  | some c =>
+    r := r.addCover s!"pair-{who}-{c.branch}"
+    if lateDuringOther && c.branch = "timeout-branch" then
+      r := r.addCover s!"pair-{who}-late-actions-while-{other}-in-flight"
+      if (script.drop k).any (fun a => match a with | .write _ => true | _ => false) then
+        r := r.addCover s!"pair-{who}-late-Write-while-{other}-in-flight"
+      if (script.drop k).any (fun a => match a with | .setHeader _ _ => true | .writeHeader _ => true | _ => false) then
+        r := r.addCover s!"pair-{who}-late-header-or-status-while-{other}-in-flight"
+      if (script.drop k).any (fun a => a == .flush) then r := r.addCover s!"pair-{who}-late-Flush-while-{other}-in-flight"
+  | none =>
+    r := r.mismatch sec l.idx (s!"{who}: " ++ (match cands.head? with | some c => c.render false | none => "?")) (s!"{who}: " ++ impl)
+  match parseSRet (o "sret"), parseView (o "atret"), parseView (o "final"), parseResults (o "results") with
+  | some sret, some atRet, some final, some (results, _) =>
+    let ob : Spec.Obs := { script := script, kind := kind, firedLo := (match kind with | some _ => k | none => script.length + 1),
+                           firedHi := (match kind with | some _ => k | none => script.length + 1), gated := true,
+                           sret := sret, atRet := atRet, final := final, results := results }
+    for e in Spec.check reasonBytes ob do
+      r := r.violation sec l.idx s!"{e} [request {who} of two requests in flight together; the other one is {other}]: op=[{joinSp l.op}] impl=[{joinSp l.obs}]"
+      if e.startsWith "[known-class " then r := r.addCover ("known-" ++ (((e.splitOn "]").headD "").splitOn " ").getLastD "")
+  | _, _, _, _ => r := r.mismatch sec l.idx "parsable-observation" (joinSp l.obs)
+  return r
+
+def runPairLine (r : Report) (sec : Nat) (l : Line) : Report :=
+  match l.op with
+  | "pair" :: inst :: kindA :: ka :: kindB :: kb :: la :: rest =>
+    let (ta, tb) := splitAt "/" rest
+    match parseKind kindA, ka.toNat?, parseKind kindB, kb.toNat?, la.toNat?, parseActs ta, parseActs tb with
+    | some kA, some a, some kB, some b, some late, some sa, some sb =>
+      if (inst ≠ "same" && inst ≠ "own") || kindA = "timer" || kindB = "timer" then r.mismatch sec l.idx "bad-op" (joinSp l.op) else
+      let r := r.addCover s!"pair-{inst}-instance" |>.addCover s!"pair-A-{kindA}-B-{kindB}"
+      let r := runPairHalf r sec l "A" "B" "a" sa kA a (late > 0)
+      let r := runPairHalf r sec l "B" "A" "b" sb kB b false
+      if obsOf l "leak" ≠ "0" then
+        r.violation sec l.idx s!"a goroutine of the wrapper is left behind after both requests and their work have ended (leak): op=[{joinSp l.op}] impl=[{joinSp l.obs}]"
+      else r
+    | _, _, _, _, _, _, _ => r.mismatch sec l.idx "bad-op" (joinSp l.op)
+  | _ => r.mismatch sec l.idx "bad-op" (joinSp l.op)
+
 def runDlLine (r : Report) (sec : Nat) (l : Line) : Report :=
   match l.op with
   | ["dl", p, d, hdr] =>
@@ -288,7 +342,10 @@ def runDlLine (r : Report) (sec : Nat) (l : Line) : Report :=
       let r := r.addCover ("rest-" ++ m ++ (if restWraps (dur * 1000000) h then "-wrapped" else "-unwrapped"))
       let r := if m ≠ impl then r.mismatch sec l.idx m impl else r
       -- monitor: deadline no later than the caller's and no later than now + timeout
-      if impl = "dl=late" ∨ (restWraps (dur * 1000000) h ∧ impl = "dl=none") ∨ (parent.isSome ∧ impl = "dl=none") then
+      let parentLater : Bool := match parent with | some p => decide (p > dur + 4000) | none => false
+      let r := if restWraps (dur * 1000000) h && parentLater then r.addCover "rest-dl-caller-deadline-later-than-timeout" else r
+      if impl = "dl=late" ∨ (restWraps (dur * 1000000) h ∧ impl = "dl=none") ∨ (parent.isSome ∧ impl = "dl=none")
+          ∨ (restWraps (dur * 1000000) h ∧ parentLater ∧ impl = "dl=parent") then
         r.violation sec l.idx s!"deadline seen by the work is later than min(caller's deadline, now+timeout): op=[{joinSp l.op}] impl=[{impl}]"
       else r
     | _, _, _ => r.mismatch sec l.idx "bad-op" (joinSp l.op)
@@ -749,6 +806,7 @@ def runSection (r : Report) (s : Section) : Report :=
     | some "fxt" => runFxtLine r s.idx l
     | some "gt" | some "wct" => runCliOptLine r s.idx l
     | some "hij" => runHijLine r s.idx l
+    | some "pair" => runPairLine r s.idx l
     | some "edl" | some "emax" =>
       (match parseEng s.cfg with
         | some es => runEngLine r s.idx l es
